@@ -291,6 +291,29 @@ def replay_jobs(chk: Check, n: int, prefix: str) -> List[tuple]:
     return jobs
 
 
+def systematic_stall_jobs(r, prefix: str, played: bool) -> List[tuple]:
+    """One thread stalled from EACH of its scheduling points (found by a base
+    run) for as long as any other thread can move: the formal counterpart of
+    'however long any one thread is delayed', on a one-board session."""
+    boards = rand_boards(r, 1)
+    styles = [{'auction': 'weak' if played else 'passout'}] * 4
+    base = {'boards': boards, 'seed': r.randrange(1 << 30), 'styles': styles, 'vary': False,
+            'policy_spec': ('fifo',)}
+    cfg = dict(base)
+    cfg['policy'] = lambda rnd: make_policy(('fifo',), rnd)
+    cfg['outdir'] = str(tlc.workdir())
+    cfg['tag'] = f'{prefix}base'
+    cfg['record_blocks'] = False
+    res = run_session(cfg)
+    jobs = []
+    for name, n in sorted(res['npoints'].items()):
+        for k in range(0, n + 1):
+            c = dict(base)
+            c['policy_spec'] = ('stall', name, k, 'fifo')
+            jobs.append((f'{prefix}{name}.{k}', c, 'normal', None))
+    return jobs
+
+
 def abort_jobs(r, n: int, prefix: str) -> List[tuple]:
     """An offence by one seat at call j / card j of board k of n, or an
     operator interrupt while the main thread is at one of its scheduling
@@ -436,6 +459,8 @@ def run_into(chk: Check, pid: str, tier: str) -> None:
         n = 240 if quick else 12000
         jobs = schedule_jobs(r, n, 'k') + normal_jobs(r, 40 if quick else 800, 'n') + \
             replay_jobs(chk, 12 if quick else 400, 't')
+        if not quick:
+            jobs += systematic_stall_jobs(r, 'yp', False) + systematic_stall_jobs(r, 'yq', True)
     elif pid == 'C13':
         jobs = abort_jobs(r, 150 if quick else 3000, 'a')
     elif pid == 'C20':
